@@ -364,6 +364,7 @@ impl<'a, T> ChordsV2<'a, T> {
         let mut timed_out_chord = Option::<(&ChordV2<'a, T>, u8)>::default();
         let mut prev_count = usize::MAX;
         let mut min_timeout;
+        let mut activated_chord = false;
 
         assert!(!presses.is_empty());
         let since = self.queue.iter().next().unwrap().since;
@@ -427,6 +428,7 @@ impl<'a, T> ChordsV2<'a, T> {
                     {
                         let ach = get_active_chord(cch, since, coord, relevant_release_found);
                         add_active_chord(&mut self.active_chords, &mut self.evicted_coords, ach);
+                        activated_chord = true;
                         break;
                     }
                 }
@@ -459,6 +461,7 @@ impl<'a, T> ChordsV2<'a, T> {
                             let coord = self.next_coord();
                             let ach = get_active_chord(cch, since, coord, relevant_release_found);
                             add_active_chord(&mut self.active_chords, &mut self.evicted_coords, ach);
+                            activated_chord = true;
                         }
                         None => no_chord_activations!(self),
                     }
@@ -469,7 +472,11 @@ impl<'a, T> ChordsV2<'a, T> {
             self.ticks_until_next_state_change = min_timeout.saturating_sub(since);
             prev_count = count_possible;
         }
-        if self.ticks_until_next_state_change == 0 || relevant_release_found {
+        // A chord activated above must not be activated a second time here,
+        // e.g. when its last press and the release of one of its keys arrive in the same tick.
+        if !activated_chord
+            && (self.ticks_until_next_state_change == 0 || relevant_release_found)
+        {
             // Find a chord that matches exactly and activate that,
             // otherwise clear the input queue.
             let completed_chord = if chord_candidates.is_full() {
